@@ -11,7 +11,7 @@ import (
 
 func main() {
 	if len(os.Args) < 2 {
-		fmt.Fprintln(os.Stderr, "usage: gocv <verify|check|sweep|ledger|ssa> ...")
+		fmt.Fprintln(os.Stderr, "usage: gocv <verify|check|replay|sweep|ssa> ...")
 		os.Exit(2)
 	}
 	switch os.Args[1] {
@@ -23,6 +23,8 @@ func main() {
 		cmdSweep(os.Args[2:])
 	case "ssa":
 		cmdSSA(os.Args[2:])
+	case "replay":
+		cmdReplay(os.Args[2:])
 	default:
 		fmt.Fprintln(os.Stderr, "unknown command", os.Args[1])
 		os.Exit(2)
